@@ -200,7 +200,10 @@ def child_real_pool(tool, dir_in, dir_out, channels, jobs):
     from TotalDepth.LAS.core import WriteLAS
     multiprocessing.current_process()._config['daemon'] = False      # this child may own a pool
     red, sl, chs, w, ff = _opts(channels)
-    res = WriteLAS.convert_dir_or_file_to_las_multiprocessing(dir_in, dir_out, True, red, sl, chs, w, ff, jobs, converter(tool))
+    try:
+        res = WriteLAS.convert_dir_or_file_to_las_multiprocessing(dir_in, dir_out, True, red, sl, chs, w, ff, jobs, converter(tool))
+    except Exception as err:  # noqa  - the batch was aborted
+        return {'__aborted__': '%s: %s' % (type(err).__name__, str(err)[:200])}, snapshot(dir_out) if os.path.isdir(dir_out) else {}
     return norm_results(res, dir_in), snapshot(dir_out) if os.path.isdir(dir_out) else {}
 
 
@@ -277,8 +280,11 @@ def explore_directory(case, res, workdir, tier):
     tasks = task_order(dir_in)
     nsched = 0
     outcomes = {h64(repr((sorted(seq_res.items()), sorted(seq_out.items()))))}
-    for assignment in env.set_partitions(len(tasks), maxw):
-        jobs = max(assignment) + 1 if assignment else 1
+    schedules = [(a, max(a) + 1 if a else 1) for a in env.set_partitions(len(tasks), maxw)]
+    if tasks:
+        # more workers asked for than there are files (the statement's worker counts go to 16): every task on its own worker
+        schedules.append((list(range(len(tasks))), 16))
+    for assignment, jobs in schedules:
         r, o, log = env.run_forked(child_schedule, tool, dir_in, os.path.join(workdir, 'mp%d' % nsched), channels, assignment, jobs)
         shutil.rmtree(os.path.join(workdir, 'mp%d' % nsched), ignore_errors=True)
         res.transitions += len(tasks)
@@ -309,6 +315,10 @@ def explore_directory(case, res, workdir, tier):
             shutil.rmtree(os.path.join(workdir, 'real'), ignore_errors=True)
             res.traces += 1
             res.count('real_pool_runs')
+            if '__aborted__' in r:
+                bad.append(({'kind': 'batch_aborted', 'run': 'real pool', 'tool': tool},
+                            'multiprocessing.Pool(jobs=%d): the batch raised %s and returned no results (directory %r)' % (jobs, r['__aborted__'], files)))
+                continue
             if h64(repr((sorted(r.items()), sorted(o.items())))) not in outcomes:
                 bad.append(({'kind': 'real_pool_outcome_not_predicted', 'tool': tool},
                             'multiprocessing.Pool(jobs=%d) gave an outcome no explored schedule gave (directory %r, channels %r)' % (jobs, files, channels)))
